@@ -226,6 +226,20 @@ def main(tier="quick"):
                 q = f"ds.SelectMany(lambda e: e.{coll}('A')).Select(lambda j: {tmpl.format(f=call_text(n))})"
                 cases.append(Case(pid, backend, q, md, {"function": n, "context": ctx, "prior": [(prior_q, list(md) + [own])]}))
                 pid += 1
+    # ---- the query declares a C++ METHOD named like a documented function (and may call it): the plain call is still the documented function
+    for backend in backends:
+        md = tuple(qgen.method_metadata(qgen.ALPHA[backend]))
+        coll = qgen.ALPHA[backend].primary
+        arrow = "->" if backend == "atlas" else "."
+        for n in ("pow", "fmod", "abs", "exp", "sqrt", "hypot"):
+            meth = {"metadata_type": "add_cpp_function", "name": n, "include_files": [], "arguments": ["k"], "code": [f"double result = obj_m{arrow}pt() + k;"],
+                    "method_object": "obj_m", "instance_object": "anything", "return_type": "double"}
+            q = f"ds.SelectMany(lambda e: e.{coll}('A')).Select(lambda j: {call_text(n)})"
+            cases.append(Case(pid, backend, q, md + (meth,), {"function": n, "context": "next-to-own-method"}))
+            pid += 1
+            q2 = f"ds.SelectMany(lambda e: e.{coll}('A')).Select(lambda j: ({call_text(n)} + j.{n}(1) * 0))"
+            cases.append(Case(pid, backend, q2, md + (meth,), {"function": n, "context": "next-to-own-method-called"}))
+            pid += 1
     res = execute(cases, events, chunk_size=40, post=post, keep_files=True)
     # header check needs the files: do it through a second cheap translation pass in-process (one per function)
     from mc.core.pipeline import translate_case
